@@ -98,7 +98,23 @@ class Dem:
             if rng.randint(4) == 0:      # converged population: duplicates, zero differences
                 PX[1:] = np.where(rng.random_sample(PX[1:].shape) < 0.3, PX[1:], PX[0])
             idx = rng.randint(0, n_pop, size=(n_mat, n_par))
-            yield {"F": gen_F(rng), "gamma": gen_gamma(rng),
+            special = rng.randint(8)
+            dtype = "float"
+            if special == 0:
+                # integer-coded decision vectors handed over as an integer array
+                dtype = "int"
+                xl = rng.randint(-5, 5, size=d).astype(float)
+                xu = xl + rng.randint(0, 6, size=d)
+                PX = np.floor(xl + rng.random_sample((n_pop, d)) * (xu - xl + 1))
+                PX = np.minimum(np.maximum(PX, xl), xu)
+            elif special == 1 and bounded:
+                # difference parents sampled under wider bounds (warm start): only the base vectors are
+                # inside the box -- repair (C11) makes no assumption about the other parents
+                w = np.maximum(xu - xl, 1.0)
+                half = max(1, n_pop // 2)
+                PX[half:] = xl - 2 * w + rng.random_sample(PX[half:].shape) * (xu - xl + 4 * w)
+                idx[:, 0] = rng.randint(0, half, size=n_mat)
+            yield {"F": gen_F(rng), "gamma": gen_gamma(rng), "dtype": dtype, "outside": bool(special == 1 and bounded),
                    "repair": REPAIR_KINDS[t % 4] if bounded else None,
                    "mode": ["do-idx", "do-pop", "mutation"][rng.randint(3)], "warm": bool(rng.randint(3) == 0),
                    "repair_as": ["name", "name", "name", "callable", "bad-name"][rng.randint(5)] if rng.randint(3) == 0 else "name",
@@ -114,15 +130,20 @@ class Dem:
     def run(case, replay=None):
         from pymoo.core.population import Population
         from pymoode.operators.dem import DEM
-        cfg = {k: case.get(k) for k in ("F", "gamma", "repair", "mode", "warm", "repair_as", "seed")}
+        cfg = {k: case.get(k) for k in ("F", "gamma", "repair", "mode", "warm", "repair_as", "seed", "dtype", "outside")}
         rec = Record("dem", cfg, {k: case[k] for k in ("xl", "xu", "PX", "idx")})
         PX = np.array(case["PX"], dtype=float, copy=True)
+        as_int = case.get("dtype") == "int"
+        if as_int:
+            rec.tags.add("int-dtype")
+        if case.get("outside"):
+            rec.tags.add("outside-parents")
         idx = np.array(case["idx"], dtype=int, copy=True)
         n_mat, n_par = idx.shape
         d = PX.shape[1]
         bounded = case["repair"] is not None
         prob = _mkprob(case["xl"] if bounded else None, case["xu"] if bounded else None, d)
-        pop = Population.new("X", PX.copy())
+        pop = Population.new("X", PX.astype(np.int64) if as_int else PX.copy())
         X = np.swapaxes(PX[idx], 0, 1).copy()
         rec.inp["X"] = X
         F = case["F"]
@@ -145,7 +166,7 @@ class Dem:
                 rec.cfg["refused"] = True
             return rec
         np.random.seed(case["seed"])
-        Xarg = X.copy()
+        Xarg = X.astype(np.int64) if as_int else X.copy()
         if case.get("warm") and bounded:
             # history: the same operator object was used before on another problem (other bounds)
             try:
@@ -171,7 +192,7 @@ class Dem:
         if rec.err is None and case["mode"] != "mutation":
             with Recorder("replay", rec.draws) as R2:
                 try:
-                    rec.out["V0"] = np.array(op.de_mutation(X.copy(), return_differentials=False), dtype=float)
+                    rec.out["V0"] = np.array(op.de_mutation(X.astype(np.int64) if as_int else X.copy(), return_differentials=False), dtype=float)
                 except Exception as e:
                     rec.out["V0"] = None
         if not bits_equal(pop.get("X"), PX):
@@ -233,6 +254,8 @@ class Dem:
             return ["DEM raised: " + rec.err]
         if rec.cfg["repair"] is None or rec.cfg["mode"] == "mutation":
             return list(rec.frames)
+        if rec.cfg.get("outside"):
+            return list(rec.frames)     # C01 presupposes a parent population inside the box
         V, xl, xu = rec.out["V"], rec.inp["xl"], rec.inp["xu"]
         m = (V < xl) | (V > xu) | np.isnan(V)
         if m.any():
